@@ -34,6 +34,8 @@ SETTINGS = [(True, False), (False, False), (True, True), (False, True)]
 
 def _norm_msg(e):
     m = getattr(e, "msg", None) or str(e)
+    if "unicodeescape" in m or "unicode error" in m:
+        return "incomplete-python-unicode-escape-in-string-literal"
     m = re.sub(r"\d+", "N", m)
     m = re.sub(r"\(.*\)", "", m)
     return m.strip().replace(" ", "_")[:70]
